@@ -54,6 +54,8 @@ def run(tier):
         q = "'" + s.replace('\\', '\\\\') + "'"
         cases.append({'label': f'token {s!r}', 'ebnf': f"start = {q} 'z' k:`{s or 'k'}` ;\n" if s and '`' not in s and '{' not in s else f"start = {q} 'z' ;\n",
                       'texts': [s + ' z', s, 'z']})
+    # the same round trips after object models were built, in the same process, for rule types named like grammar-model classes
+    cases += [dict(c, label='after-typed-parses/' + c['label'], prelude=True) for c in cases[:len(FULL)][:: (3 if tier == 'quick' else 1)]]
     cases.append({'label': 'one-rule one-keyword', 'ebnf': "@@keyword :: if\nstart = 'a' ;\n", 'texts': ['a', 'if']})
     cases.append({'label': 'constants falsy', 'ebnf': "start = a:`0` b:`False` c:`None` d:`''` 'x' ;\n", 'texts': ['x']})
     core_texts = all_texts(['a', 'b', ' '], 3) + [list('abab')]
